@@ -124,7 +124,12 @@ impl Harness {
         self.ensure()?;
         let srv = self.srv.as_ref().unwrap();
         let aux = self.aux.as_mut().unwrap();
-        srv.call(aux, args).map_err(|e| format!("aux call {}: {:?}", resp::show_cmd(args), e))
+        let r = srv.call(aux, args).map_err(|e| format!("aux call {}: {:?}", resp::show_cmd(args), e));
+        if r.is_err() {
+            // a control connection that lost step with its replies must not be reused (the next reply would be stale)
+            self.aux = None;
+        }
+        r
     }
     pub fn seed_state(&mut self, state: usize) -> Result<(), String> {
         self.aux_call(&["FLUSHALL"])?;
